@@ -181,6 +181,13 @@ def ob_crash(existing: bool, oti: int, nti: int, crash_at: int, torn: int) -> bo
         oldv, newv = _tobytes(old), _tobytes(new)
     else:
         oldv, newv = old, new
+    if op == "store":
+        # recovery: the interrupted store is retried by the restarted process (no fault this time) and must take full effect
+        with nt(), quiet():
+            o3 = _open(backend)
+            _put(o3, backend, K, new)
+            again = _read(_open(backend), backend, K)
+        ok = ok and again[0] == "value" and _same(again[1], newv)
     if got[0] == "value":
         v = got[1]
         if op == "store":
